@@ -198,12 +198,12 @@ func VH_input(nlines int, finalNL int) {
 }
 
 var replPool = []string{
-	"1 + 2;",                                // bare expression: echo
+	"1 + 2;",                                 // bare expression: echo
 	"\u09a6\u09c7\u0996\u09be\u0993 \"hi\";", // print
 	"\u09a6\u09c7\u0996\u09be\u0993 @;",      // lexical error
-	"1 + ;",                                 // syntax error
-	"1 / 0;",                                // runtime error
-	"x;",                                    // runtime error (undefined)
+	"1 + ;",                                  // syntax error
+	"1 / 0;",                                 // runtime error
+	"x;",                                     // runtime error (undefined)
 	"\u09a7\u09b0\u09bf y = 5;",              // declaration: no echo
 	"\u09b2\u09c7\u09a8([1, 2, 3]);",         // built-in, echo
 	"\u09b2\u09c7\u09a8 = 0;",                // assignment to a built-in's name (the parser allows it): echo
